@@ -823,18 +823,9 @@ func (vfs *MemFS) Rename(oldpath, newpath string) error {
 		}
 	}
 
-	// Renaming a file to itself or to another hard link of itself does nothing.
-	if oPI.Path() == nPI.Path() || (nChild != nil && oChild == nChild) {
-		return nil
-	}
-
 	switch oChild.(type) {
 	case *dirNode:
-		// The root directory can't be renamed and a directory can't be moved into itself.
-		if oChild == node(oParent) || strings.HasPrefix(nPI.Path(), oPI.Path()+string(vfs.PathSeparator())) {
-			return &os.LinkError{Op: op, Old: oldpath, New: newpath, Err: vfs.err.InvalidArgument}
-		}
-
+		// A directory can't replace anything, not even itself (as os.Rename).
 		if !vfs.isNotExist(nErr) {
 			// A directory can't replace a file or a symbolic link.
 			if _, ok := nChild.(*dirNode); !ok {
@@ -848,7 +839,16 @@ func (vfs *MemFS) Rename(oldpath, newpath string) error {
 			return &os.LinkError{Op: op, Old: oldpath, New: newpath, Err: nErr}
 		}
 
+		// The root directory can't be renamed and a directory can't be moved into itself.
+		if oChild == node(oParent) || strings.HasPrefix(nPI.Path(), oPI.Path()+string(vfs.PathSeparator())) {
+			return &os.LinkError{Op: op, Old: oldpath, New: newpath, Err: vfs.err.InvalidArgument}
+		}
 	case *fileNode, *symlinkNode:
+		// Renaming a file to itself or to another hard link of itself does nothing.
+		if oPI.Path() == nPI.Path() || (nChild != nil && oChild == nChild) {
+			return nil
+		}
+
 		if nChild == nil {
 			break
 		}
